@@ -3,7 +3,7 @@
 From Coq Require Import List Arith Bool PeanoNat.
 From Icv Require Import Route.RtModel Route.RtProofs Route.RtObs Route.RtOracleProofs Route.RtStepLemmas Route.RtLoad
      Route.RtNet Route.RtFamilies Route.RtSched Route.RtNetSound Route.RtNetProofs
-     Route.RtInv Route.RtChain Route.RtChainSafe Route.RtChainComplete Route.RtTree Route.RtTreeSafe Route.RtTreeComplete.
+     Route.RtInv Route.RtChain Route.RtChainSafe Route.RtChainComplete Route.RtTree Route.RtTreeSafe Route.RtTreeComplete Route.RtNetObs Route.RtNetObsProofs.
 Import ListNotations.
 
 (* ---- one relay step: ALL zone configurations, views, origins, iteration orders (unbounded) ---- *)
@@ -281,6 +281,19 @@ Proof.
   unfold rt_global_trees. apply in_flat_map. exists [2; 2]. split; [vm_compute; tauto|].
   apply in_map_iff. exists [2; 2; 2; 2; 2; 2; 2]. split; [reflexivity|]. vm_compute. tauto.
 Qed.
+
+(* the executable NETWORK-level check run over complete multi-hop runs of the real code (op rt_net: number of
+   deliveries, endpoints that processed) accepts every complete run of the model's network relation - any schedule, any
+   per-node iteration order, any link set, any originator - on the configuration classes of the unbounded theorems
+   (outside them, rt_net_pre_b, it claims nothing): nobody twice, fewer deliveries than endpoints, complete under the
+   premise *)
+Theorem C11_net_oracle_accepts_model : forall c links target s lz nord k st',
+  rt_zone_of c s = Some lz -> rt_nord_ok c nord ->
+  rt_sched_run rt_msg (rt_effect c links target nord) (rt_init c links target nord s lz) k st' ->
+  fst st' = [] ->
+  rt_net_oracle c links target s k (snd st') = 0.
+Proof. exact rt_net_oracle_accepts. Qed.
+Print Assumptions C11_net_oracle_accepts_model.
 
 (* non-vacuity: the 2/2/2 chain, fully connected, event about an object of the bottom zone originating at its
    non-master endpoint: premise holds, all six endpoints process exactly once; and a step that persists *)
